@@ -200,7 +200,7 @@ def nested_saveload():
             for _ in range(3):
                 z = rng.uniform(-1, 2, size=xa.shape)
                 for ra, rb in zip(Fa(z, pa), Fb(z, pb)):
-                    ok = ok and np.array(ra).shape == np.array(rb).shape and np.allclose(np.array(ra), np.array(rb), atol=1e-10, equal_nan=True)
+                    ok = ok and np.array(ra).shape == np.array(rb).shape and np.allclose(np.array(ra), np.array(rb), rtol=1e-10, atol=1e-10, equal_nan=True)
             ok = ok and len(list(o2.iter_stages(include_self=True))) == 3
             res.append(('C18.a:nested:' + tag, 'ok' if ok else 'mismatch', 'loaded nested problem differs from the saved one'))
         except Exception as e:
@@ -277,7 +277,7 @@ def builtin_saveload():
                 for nm, ra, rb in zip(('f', 'g', 'lbg', 'ubg'), Fa(z, pa), Fb(z, pb)):
                     ra, rb = np.array(ra), np.array(rb)
                     if ra.shape != rb.shape: ok = False; det = '%s has %s entries in the saved and %s in the loaded problem' % (nm, ra.shape, rb.shape)
-                    elif not np.allclose(ra, rb, atol=1e-9, equal_nan=True): ok = False; det = '%s differs by %g' % (nm, float(np.nanmax(np.abs(ra - rb))))
+                    elif not np.allclose(ra, rb, rtol=1e-10, atol=1e-10, equal_nan=True): ok = False; det = '%s differs by %g' % (nm, float(np.nanmax(np.abs(ra - rb))))
             res.append(('C18.a:builtin:' + tag, 'ok' if ok else 'mismatch', det))
         except Exception as e:
             res.append(('C18.a:builtin:' + tag, 'error', '%s: %s' % (type(e).__name__, (str(e).splitlines() or [''])[-1][:200])))
